@@ -57,6 +57,25 @@ def many_funcs(n, named='none'):
     return m
 
 
+def name_relations(export_name):
+    """-g decides per function whether its debug name may be used as the C symbol by comparing it with the symbols of the exports:
+    debug names that are PREFIXES (every length, incl. ending inside an escape sequence), extensions by one character and case variants
+    of the escaped export symbol, of the raw export name and of <module>_<symbol>."""
+    from . import e2e
+    m = Module()
+    m.func_names = {}
+    tiny_func(m, 0, export=export_name)
+    esc = e2e.escape(export_name)
+    rel = []
+    for base in (esc, export_name, 'm_' + esc):
+        rel += [base[:k] for k in range(1, len(base) + 1)] + [base + 'X', base + '_', base + '0', base.swapcase()]
+    rel = [r for r in dict.fromkeys(rel) if '\0' not in r]
+    for i, nm in enumerate(rel):
+        f = tiny_func(m, i + 1, export=None)
+        m.func_names[f] = nm
+    return m
+
+
 def many_locals(ngroups, per, mixed=True):
     m = Module()
     ts = [I32, I64, F32, F64]
@@ -97,6 +116,19 @@ def deep_nesting(depth, kind='block'):
             body.append(('end',))
     body.append(('local.get', 0))
     m.add_func([I32], [I32], [], body, export='f')
+    return m
+
+
+def dense_switch(n):
+    """what a compiler emits for a dense n-case switch: n nested blocks around one br_table, one arm after each end; plus two small
+    functions so that -f splits the module over several files"""
+    m = Module()
+    body = [('block', None)] * n + [('local.get', 0), ('br_table', list(range(n)), n - 1)]
+    for k in range(n):
+        body += [('end',), ('i32.const', k * 7 + 1), ('return',)]
+    m.add_func([I32], [I32], [], body, export='sw')
+    m.add_func([I32], [I32], [], [('local.get', 0), ('i32.const', 3), ('i32.mul',)], export='triple')
+    m.add_func([], [I32], [], [('i32.const', 5)], export='five')
     return m
 
 
@@ -192,6 +224,8 @@ def shapes(rnd, tier='quick'):
     for n in ([1, 2, 100, 3000] if q else [1, 2, 100, 3000, 20000]):
         for named in ('none', 'all', 'some', 'dups'):
             out.append(('funcs%d-names-%s' % (n, named), many_funcs(n, named)))
+    for en in ('a.b', '__x', 'foo-bar', 'a__b_', 'x y.z', 'h\u00e9', 'X', 'aX2Eb', '_', 'e.'):
+        out.append(('namerel-%s' % ''.join(ch if ch.isalnum() else '_' for ch in en), name_relations(en)))
     out.append(('locals-49000-onegroup', many_locals(1, 49000, mixed=False)))
     out.append(('locals-980groups', many_locals(980, 50)))
     out.append(('locals-5000groups-of-1', many_locals(5000, 1)))
